@@ -30,6 +30,8 @@ BUILTIN_DEFAULT = '1'
 def canon(v: T.Any) -> str:
     if isinstance(v, bool):
         return 'true' if v else 'false'
+    if isinstance(v, list):
+        return '[' + ', '.join(canon(x) for x in v) + ']'
     return str(v)
 
 
@@ -42,6 +44,13 @@ def validate(sp: dict, raw: str) -> T.Optional[str]:
         return raw.lower() if raw.lower() in ('true', 'false') else None
     if t == 'combo':
         return raw if raw in sp['c'] else None
+    if t == 'array':
+        # command line: comma separated; a stored value ('[x, y]') is re-validated when the choices change
+        body = raw[1:-1] if raw.startswith('[') and raw.endswith(']') else raw
+        items = [x.strip() for x in body.split(',')] if body else []
+        if sp.get('c') and any(x not in sp['c'] for x in items):
+            return None
+        return canon(items)
     if t == 'integer':
         try:
             n = int(raw)
@@ -187,10 +196,18 @@ def blows(st: State) -> bool:
     return eff.get('top:boom') == 'true' or eff.get('top:boom_late') == 'true'
 
 
+# default_options of the build files: part of the defaults a fresh configuration starts from (below the command line);
+# keys as on the command line, seen from the top-level project
+BUILD_FILE_DEFAULTS: T.List[T.List[str]] = []
+
+
 def fresh(files: T.Dict[str, T.Dict[str, dict]], rec: T.List[T.List[str]], lenient: bool) -> T.Optional[State]:
     st = State()
     st = sync(st, files)
     st.parent_replaced.clear(); st.child_replaced.clear(); st.type_changed.clear()
+    st = apply_d(st, BUILD_FILE_DEFAULTS, [], True)
+    assert st is not None
+    st.rec.clear()
     st = apply_d(st, rec, [], lenient)
     if st is None:
         return None
